@@ -142,6 +142,15 @@ CONTRACTS.update({
         properties=['C06', 'C02'],
         types={'graph': 'Ref[NxGraph]', 'start_nodes': 'Set[Ref]'},
         returns=f'Set[{EDGE}]',
+        # shape of the incompatibility edges of a graph built through the API: a constraint is a pair of edges, one in
+        # each direction (add_incompatibility_constraint); the marker of a choice left without options leaves a start
+        # node. (The markers that an IncompatibilityError leaves behind are single edges between name-sorted end nodes:
+        # graphs carrying those are outside this contract; the bounded layer of C06 walks them.) Under this shape it
+        # does not matter whether the test looks at the source end only or at both ends; asking for BOTH ends to be
+        # confirmed does.
+        requires={'incompatibility-edges-are-pairs-or-leave-a-start-node':
+                  f"forall('e:{EDGE}', implies(e in graph.edge_set and e[3] == EdgeType.INCOMPATIBILITY, e[0] in start_nodes or "
+                  f"exists('f:{EDGE}', f in graph.edge_set and f[3] == EdgeType.INCOMPATIBILITY and f[0] == e[1] and f[1] == e[0])))"},
         ghost={'S': 'Set[Ref]'},
         locals={'edges': f'Set[{EDGE}]'},
         defs={'E': (('u', 'v'), E)},
@@ -404,19 +413,29 @@ def _domain_confirmed_incompat(n):
         g.edge_attr_dict_factory = HashableDict
         g.add_nodes_from(nodes)
         es = set()
+        plain = [x for x in nodes if not isinstance(x, SelectionChoiceNode)]
+        if not plain:
+            continue
+        start = set(rng.sample(plain, rng.randint(1, min(2, len(plain)))))
+
+        def put(u, v, t):
+            key_ = g.new_edge_key(u, v)
+            add_edge(g, u, v, key=key_, edge_type=t)
+            es.add((u, v, key_, t))
         for _ in range(rng.randint(1, 12)):
             u, v = rng.choice(nodes), rng.choice(nodes)
             if u is v or (isinstance(u, SelectionChoiceNode) and isinstance(v, SelectionChoiceNode)):
                 continue
             t = rng.choice(types)
-            key_ = g.new_edge_key(u, v)
-            add_edge(g, u, v, key=key_, edge_type=t)
-            es.add((u, v, key_, t))
+            if t == EdgeType.INCOMPATIBILITY:
+                if rng.random() < 0.8:
+                    put(u, v, t)        # a constraint: one edge in each direction
+                    put(v, u, t)
+                else:
+                    put(rng.choice(sorted(start, key=str)), v, t)     # marker leaving a start node
+            else:
+                put(u, v, t)
         g.edge_set = es
-        plain = [x for x in nodes if not isinstance(x, SelectionChoiceNode)]
-        if not plain:
-            continue
-        start = set(rng.sample(plain, rng.randint(1, min(2, len(plain)))))
         env = {'graph': g, 'start_nodes': set(start), 'EdgeType': EdgeType, 'SelectionChoiceNode': SelectionChoiceNode}
 
         def call(g=g, start=start):
